@@ -25,7 +25,7 @@ import mixgen
 import c09
 
 META = {
-    'text': 'Theorems (Lean 4; the models carry the code variant of each defect site and the harness determines which variant the tree under test is): (a) over explicit-store models of the three aliasing sites the property names — the interaction matrix handed to dbm_p.coefs by reference, the depth array of ambient.get_values, the FluidParticle.K warm-start cache — frame theorems (caller-visible arrays unchanged) where true (calc_delta <= 0; get_values as repaired), REFUTATION where false for the code as written (calc_delta > 0 overwrites FluidMixture.delta; exact description of what is overwritten), and repeat-call equality of every query after ANY history of queries (by induction over the history; for mixed-phase particles under the stated flash-stability hypothesis, refuted without it); (b) over a model of blowout.Blowout as parameters + flags (update, new_oil, constructor-only q_type), for every sequence of update calls over all 13 update methods: the refreshed object equals the object constructed with the final parameters provided the sequence does not change whether num_oil_elements is positive; the unrestricted statement is REFUTED (witness update_num_oil_elements(0)). Real code: seeded random histories of 1-12 queries on one mixture / particle / profile object with deep snapshots of every argument array and of the attribute dict around every call and repeated queries; random sequences of 1-8 Blowout update calls compared attribute by attribute with a fresh Blowout; the models are tied to the code by replaying the recorded library calls / flags.',
+    'text': 'Theorems (Lean 4; the models carry the code variant of each former defect site, the harness determines on every run which variant the tree under test is — evidence field code_variant; since commits 04684b2 / 9eabe46 both sites are REPAIRED and the claimed theorems are the FULL statements query_frame and blowout_refines_fresh): (a) over explicit-store models of the three aliasing sites the property names — the interaction matrix handed to dbm_p.coefs by reference, the depth array of ambient.get_values, the FluidParticle.K warm-start cache — frame theorems (caller-visible arrays unchanged) where true (calc_delta <= 0; get_values as repaired), REFUTATION where false for the code as written (calc_delta > 0 overwrites FluidMixture.delta; exact description of what is overwritten), and repeat-call equality of every query after ANY history of queries (by induction over the history; for mixed-phase particles under the stated flash-stability hypothesis, refuted without it); (b) over a model of blowout.Blowout as parameters + flags (update, new_oil, constructor-only q_type), for every sequence of update calls over all 13 update methods: the refreshed object equals the object constructed with the final parameters provided the sequence does not change whether num_oil_elements is positive; the unrestricted statement is REFUTED (witness update_num_oil_elements(0)). Real code: seeded random histories of 1-12 queries on one mixture / particle / profile object with deep snapshots of every argument array and of the attribute dict around every call and repeated queries; random sequences of 1-8 Blowout update calls compared attribute by attribute with a fresh Blowout; the models are tied to the code by replaying the recorded library calls / flags.',
     'note': 'Trusted: Lean kernel + 3 standard axioms; hand transcriptions Model/Blowout.lean, Model/Particle09.lean (validated every run by correspondence); the snapshot / comparison code of the harness. NOT modelled: the equations of state and everything Blowout._update derives (library parameters). Purity of the queries that are not among the three named aliasing sites is SAMPLED by the snapshot histories only. Scope: generated masses are non-negative (the deliberate in-place clipping m[m<0]=0 of SingleParticle.properties is outside the quantifier); FluidParticle.K is a cache, not a physical parameter.',
     'technique': 'Lean 4 proof over hand-written explicit-store / flag-machine models (induction over call histories) + snapshot histories and fresh-object comparison on the real code + oracle-table correspondence',
 }
@@ -44,6 +44,21 @@ RULE = ('histories of 1-12 queries on ONE object: FluidMixture of 1-5 database c
         'non-trivial when its (object kind, method sequence, state pattern) is new')
 LEVEL_NOTE = ('theorems about hand-written store / flag models (all histories, by induction); tied to /repo by snapshot histories and '
               'recorded-call correspondence (sampled); purity of queries outside the three modelled aliasing sites is sampled only')
+
+
+def extra(ctx):
+    v = getattr(ctx, 'code_variant', None)
+    if v is None:
+        return None
+    return {'code_variant': {'coefs_aliases_callers_matrix': bool(v['aliased']), 'update_num_oil_elements_revisits_q_type': bool(v['revisit']),
+                             'individual_methods_zero_entry_test': bool(v['zeroEntryTest']),
+                             'gas_viscosity_liquid_row': bool(v['gasViscLiquidRow'])},
+            'claimed_theorem': ', '.join([
+                'TamocV.Props.C19.query_frame (FULL frame statement for coefs)' if not v['aliased'] else
+                'TamocV.Props.C19.query_frame_partial + not_query_frame (frame refuted for this tree)',
+                'TamocV.Props.C19.blowout_refines_fresh (FULL statement, every update sequence)' if v['revisit'] else
+                'TamocV.Props.C19.blowout_refines_fresh_partial + not_blowout_refines_fresh (refuted for this tree)',
+                'get_values_frame, query_answer_indep_of_history, answer_indep_of_history (full; the last under FlashStable for mixed-phase particles)'])}
 
 
 def audit_files():
@@ -757,6 +772,13 @@ def run(ctx, lean_ok):
     r = ctx.rng
     ctx.notes_raise = {}
     detect_variants(ctx)
+    ctx.code_variant = dict(VARIANT, **c09.CODE)
+    ctx.oblige('the tree under test has the REPAIRED dbm_p.coefs (works on a copy): the full-strength frame theorem '
+               'TamocV.Props.C19.query_frame is the one that applies to it', not VARIANT['aliased'],
+               'dbm_p.coefs writes into the caller\'s matrix: the witness of TamocV.Props.C19.not_query_frame reproduces on the real code')
+    ctx.oblige('the tree under test has the REPAIRED Blowout.update_num_oil_elements (q_type revisited): the full-strength theorem '
+               'TamocV.Props.C19.blowout_refines_fresh is the one that applies to it', bool(VARIANT['revisit']),
+               'q_type is not revisited: the witness of TamocV.Props.C19.not_blowout_refines_fresh reproduces on the real code')
     lines, owners = [], []
     mixture_histories(ctx, r, ctx.n(60, 1500))
     particle_histories(ctx, r, ctx.n(45, 900), lines, owners)
